@@ -66,7 +66,8 @@ pub open spec fn accepted_enum(enm: &syn::ItemEnum) -> bool {
     &&& enm.generics.params@.len() == 0
     &&& forall|j: int| 0 <= j < enm.variants@.len() ==> (#[trigger] enm.variants@[j]).fields is Unit
     &&& forall|j: int| 0 <= j < enm.variants@.len() && enm.variants@[j].discriminant is Some ==> is_int_literal((#[trigger] enm.variants@[j]).discriminant.unwrap().1)
-    &&& forall|j: int| 0 <= j < enm.variants@.len() ==> isize::MIN <= #[trigger] disc(enm.variants@, j) <= isize::MAX
+    // the property quantifies over discriminants within i32 (a #[repr(C)] enum is a C int); isize arithmetic on them cannot overflow
+    &&& forall|j: int| 0 <= j < enm.variants@.len() ==> i32::MIN <= #[trigger] disc(enm.variants@, j) <= i32::MAX
 }
 """
 
@@ -83,7 +84,7 @@ LOOP = """{{
                         accepted_enum(enm),
                         out__@.len() == it__.index@,
                         forall|j: int| 0 <= j < it__.index@ ==> (#[trigger] out__@[j]).1 == disc(enm.variants@, j),
-                        last_discriminant == disc(enm.variants@, it__.index@ - 1),
+                        @STATE_INV@,
                 {{
                     proof {{
                         assert(v == enm.variants@[it__.index@]);
@@ -120,9 +121,9 @@ def e10_discriminant(text):
     b0 = text.index("{", m.end() - 1)
     b1 = match_close(text, b0)
     rest = text[b1 + 1:]
-    m2 = re.match(r"\)\s*\.unwrap_or_else\(\|\| ", rest)
+    m2 = re.match(r"\)\s*\.unwrap_or_else\(\|\| ", rest) or re.match(r"\)\s*\.unwrap_or\(", rest)
     if not m2:
-        raise Undecided("edit-mismatch", "E10: `.unwrap_or_else(|| ..)` not found after the map")
+        raise Undecided("edit-mismatch", "E10: `.unwrap_or_else(|| ..)` / `.unwrap_or(..)` not found after the map")
     e0 = b1 + 1 + m2.end()
     # closing paren of unwrap_or_else(
     po = text.rfind("(", 0, e0)
@@ -146,7 +147,16 @@ def build(tier):
     p.fn("E10", e10_discriminant, why="Option::map/unwrap_or_else unfolded; syn literal re-parsing abstracted (explicit_value)")
     p.fn("E7", e7_map_collect, why="iterator map/collect with a mutable capture desugared to for/push")
     p.fn("E5", rule_panics, why="documented rejections become unreachable under `accepted_enum`")
-    p.sub("E3", r"let mut last_discriminant = -1;", "let mut last_discriminant: isize = -1;", count=1, why="inferred integer type written out")
+    # the running state of the numbering: one `let mut NAME = -1;` ("the previous variant's value") or `let mut NAME = 0;` ("the next implicit value").
+    # The invariant is phrased over the oracle, the local's name is read from the code (a renamed local is not an alarm and not an anchor loss)
+    body = src.slice(it["start"], it["end"])
+    ms = re.findall(r"let mut (\w+) = (-1|0);", body)
+    if len(ms) != 1:
+        raise Undecided("anchor-lost", f"Enum::new: expected one running-state local `let mut NAME = -1;` or `= 0;`, found {ms}")
+    sname, init = ms[0]
+    state_inv = f"{sname} == disc(enm.variants@, it__.index@ - 1)" + (" + 1" if init == "0" else "")
+    p.sub("E4", r"@STATE_INV@", state_inv, count=1, why="loop invariant: the running-state local against the oracle")
+    p.sub("E3", rf"let mut {sname} = {init};", f"let mut {sname}: isize = {init};", count=1, why="inferred integer type written out")
     vf.add_piece(p, expected="new")
     vf.add("}\n")
     vf.add(vhelp.FOOTER)
@@ -157,7 +167,7 @@ CANARY_FUNCTIONS = ["new"]
 ASSUMPTIONS = [
     "syn::ItemEnum/Variant/Fields re-declared with the fields Enum::new reads; Punctuated<Variant, _> as Vec<Variant> (iteration order = declaration order)",
     "the re-parse of an explicit discriminant (syn::parse2 + base10_parse::<isize>) is abstract: explicit_value(expr)",
-    "documented rejections as preconditions: no generics, unit variants only, integer-literal discriminants, no isize overflow (rustc rejects)",
+    "documented rejections as preconditions: no generics, unit variants only, integer-literal discriminants, every discriminant within i32 (the property's domain; a #[repr(C)] enum is a C int)",
     "A-iter (E7), E10; Attrs/Docs/Ident conversions opaque",
 ]
 UNVERIFIED = {
